@@ -86,6 +86,15 @@ def gen_project(seed, nfiles=None, with_header=None, with_inline=None, severitie
             line += 1
         files[name] = text
         sources.append(name)
+    if rnd.random() < 0.2:
+        # stress for the inter-process encoding: a 70 kB message (pipe frames larger than the pipe buffer), a file name
+        # with a space, ';' and a tab inside a string literal next to a finding
+        long_name = "v" + "x" * 70000
+        files["sp ace.c"] = ("int lf(void) { int %s; return %s; }\n" % (long_name, long_name) +
+                             "int sf(const char *s) { if (s == \"a;b\\tc\") return 1 / 0; return 0; }\n")
+        sources.append("sp ace.c")
+        located.append(("sp ace.c", 1, "uninitvar", "error"))
+        located.append(("sp ace.c", 2, "zerodiv", "error"))
     opts = ["--template=" + TEMPLATE, "-q"]
     if with_inline:
         opts.append("--inline-suppr")
@@ -160,6 +169,10 @@ def parse_findings(stderr_text):
         if len(parts) < 8:
             continue
         _f, file, ln, col, sev, inc, fid, msg = parts
+        if len(msg) > 300:
+            import hashlib
+            msg = msg[:80] + "#sha1:" + hashlib.sha1(msg.encode("utf-8", "replace")).hexdigest()
+            parts[7] = msg
         res.append({"id": fid, "key": "|".join(parts[1:]), "file": file, "line": int(ln), "col": int(col),
                     "sev": sev, "inc": inc == "inconclusive", "msg": msg})
     return res
